@@ -45,6 +45,14 @@ RunStage(q) ==
 Return(q) == /\ q \in DOMAIN rq /\ rq[q].st = "holding" /\ stage[q] = MCStages
              /\ ReturnCore(q, FALSE, <<>>, FALSE)
              /\ UNCHANGED <<pin, stage>>
+\* the release as the implementation does it: the data is dropped, then the instance handed back, then the call returns
+Clear(q) == /\ q \in DOMAIN rq /\ rq[q].st = "holding" /\ stage[q] = MCStages
+            /\ ClearCore(q, rq[q].inst) /\ UNCHANGED <<pin, stage>>
+Put(q) == /\ q \in DOMAIN rq /\ rq[q].st = "holding" /\ stage[q] = MCStages
+          /\ PutCore(q, rq[q].inst) /\ UNCHANGED <<pin, stage>>
+ReturnPut(q) == /\ q \in DOMAIN rq /\ rq[q].st = "pushed"
+                /\ ReturnCore(q, FALSE, <<>>, FALSE)
+                /\ UNCHANGED <<pin, stage>>
 Push == \E i \in transit : PushCore(i, Cardinality(SameList(i, free \cup {i}))) /\ UNCHANGED <<pin, stage>>
 
 Upd == \/ /\ done + (IF pend.kind = "none" THEN 0 ELSE 1) <= MCUpdates
@@ -63,6 +71,9 @@ UpdU == \E u \in 1..MCUpdates :
 
 MCNext == \/ \E q \in Reqs : Arrive(q) \/ Pop(q) \/ RunStage(q) \/ Return(q)
           \/ Push \/ Upd
+\* ... with the release in the implementation's three steps (clear, put, return) instead of one
+MCNextR == MCNext \/ \E q \in Reqs : Clear(q) \/ Put(q) \/ ReturnPut(q)
+MCSpecR == MCInit /\ [][MCNextR]_mcvars
 MCNextU == \/ \E q \in Reqs : Arrive(q) \/ Pop(q) \/ RunStage(q) \/ Return(q)
            \/ Push \/ UpdU
 MCSpecU == MCInit /\ [][MCNextU]_mcvars
